@@ -204,7 +204,7 @@ def positions_mismatch(fx):
     return None
 
 
-def legacy_assoc_setslice(l, sl, value):
+def legacy_assoc_setslice(l, sl, value, value_is_iterator=False):
     """The pinned tree's _AssociationList.__setitem__ slice branch (before fix e371dcf) over the pinned tree's instrumented list
     (before 9cb0b6d), run on a plain list -> (exc, contents). Only used to make the known-finding signature exact."""
     from checks.pycoll_orm import legacy_setslice
@@ -232,17 +232,18 @@ def legacy_assoc_setslice(l, sl, value):
         else:
             if len(sized) != len(rng):
                 raise ValueError("size")
-            for i, item in zip(rng, sized):
+            # the pinned code zips over `value` again: an iterator is already exhausted by list(value)
+            for i, item in zip(rng, [] if value_is_iterator else sized):
                 l[i] = item
     except Exception as e:
         return type(e).__name__, l
     return "none", l
 
 
-def legacy_flag(fx, op, old, exc, got):
+def legacy_flag(fx, op, old, exc, got, argform="list"):
     if fx.flavour != "plist" or op["n"] != "setslice":
         return None
-    lexc, lval = legacy_assoc_setslice(old, slice(pc.dec(op["a"]), pc.dec(op["b"]), pc.dec(op["c"])), list(op["v"]))
+    lexc, lval = legacy_assoc_setslice(old, slice(pc.dec(op["a"]), pc.dec(op["b"]), pc.dec(op["c"])), list(op["v"]), argform == "iter")
     return lexc == exc and (lval == got or lexc != "none")
 
 
@@ -253,7 +254,7 @@ def run_case(fx, case, argform="list"):
     old = observe(fx)
     exc, rk, ret = perform_on(fx, op, argform)
     got = observe(fx)
-    fx.legacy = legacy_flag(fx, op, old, exc, got)
+    fx.legacy = legacy_flag(fx, op, old, exc, got, argform)
     if fx.kind == "dict" and op["n"] == "assign":
         # a proxy assignment updates the mapping in place: surviving keys keep their place (dict equality ignores order)
         got, exp = sorted(got), dict(exp, val=sorted(exp["val"]))
@@ -291,7 +292,7 @@ class ExtSeqDriver:
             old = observe(fx)
             exc, rk, ret = perform_on(fx, op, self.argform)
             got = observe(fx)
-            self.legacy = legacy_flag(fx, op, old, exc, got)
+            self.legacy = legacy_flag(fx, op, old, exc, got, self.argform)
             m = pc.outcome_mismatch(fx.kind, act["exp"], exc, rk, ret, got, old, unkey=pc.unkey_str)
             if m:
                 self.in_step = got == pc.exp_contents(fx.kind, to["val"])
